@@ -478,23 +478,55 @@ pub fn replay_stdin() {
 }
 
 // ---- flatten: a dedicated little world (outer data are sources, inner data are numbers) ----
+// Dual mode (`--dual`): two subscriptions to ONE flattened value; side b uses sink 1 and upstream indices 100 + i, as in `World`.
 struct FW {
     script: Vec<Mv>,
     toks: Vec<String>,
     pos: AtomicUsize,
     log: Mutex<Vec<String>>,
     errs: Mutex<Vec<(u32, Err)>>,
-    sink_tb: Mutex<Option<Arc<Source<i64>>>>,
-    outer_sink: Mutex<Option<Arc<Sink<Arc<Source<i64>>>>>>,
+    sink_tb: Mutex<HashMap<usize, Arc<Source<i64>>>>,
+    outer_sink: Mutex<HashMap<usize, Arc<Sink<Arc<Source<i64>>>>>>,
     inner_sink: Mutex<HashMap<usize, Arc<Sink<i64>>>>,
     op: Mutex<Option<Arc<Source<i64>>>>,
-    next_inner: AtomicUsize,
+    next_inner: [AtomicUsize; 2],
+    dual: bool,
+    cur: AtomicUsize,
+    hstack: Mutex<Vec<usize>>,
 }
 impl FW {
     fn log(&self, s: String) {
         if self.pos.load(Ordering::SeqCst) <= self.script.len() {
             lock(&self.log).push(s);
         }
+    }
+    fn logs(&self, side: usize, s: String) {
+        if self.dual {
+            self.log(format!("{}:{}", if side == 0 { "a" } else { "b" }, s));
+        } else {
+            self.log(s);
+        }
+    }
+    fn side_of(mv: &Mv) -> usize {
+        match mv {
+            Mv::S(k) | Mv::U(k, _, _) => (*k >= 1) as usize,
+            Mv::G(i) | Mv::D(i, _, _) => (*i >= 100) as usize,
+            Mv::R => 0,
+        }
+    }
+    fn on_behalf<R>(&self, side: usize, f: impl FnOnce() -> R) -> R {
+        let prev = self.cur.swap(side, Ordering::SeqCst);
+        let r = f();
+        self.cur.store(prev, Ordering::SeqCst);
+        r
+    }
+    fn in_handler(self: &Arc<Self>, side: usize) {
+        lock(&self.hstack).push(side);
+        self.turn();
+        lock(&self.hstack).pop();
+    }
+    fn cur_side(&self) -> usize {
+        if self.dual { self.cur.load(Ordering::SeqCst) } else { 0 }
     }
     fn err(&self, id: u32) -> Err {
         let mut g = lock(&self.errs);
@@ -514,71 +546,78 @@ impl FW {
         self.script.get(p).cloned().map(|m| (m, self.toks[p].clone()))
     }
     fn up_log(self: &Arc<Self>, i: usize, m: &Message<Never, impl Sized>) {
+        let side = (i >= 100) as usize;
         match m {
-            Message::Pull => self.log(format!(">U{i}p")),
-            Message::Terminate => self.log(format!(">U{i}t")),
-            Message::Error(e) => self.log(format!(">U{i}{}", self.err_id(e))),
+            Message::Pull => self.logs(side, format!(">U{i}p")),
+            Message::Terminate => self.logs(side, format!(">U{i}t")),
+            Message::Error(e) => self.logs(side, format!(">U{i}{}", self.err_id(e))),
             _ => self.log("?bad-to-source".into()),
         }
     }
     fn turn(self: &Arc<Self>) {
         loop {
             let Some((mv, tok)) = self.next() else { return };
+            let side = if self.dual { Self::side_of(&mv) } else { 0 };
             match mv {
                 Mv::R => {
-                    self.log(tok);
+                    let top = lock(&self.hstack).last().copied().unwrap_or(0);
+                    self.logs(top, tok);
                     return;
                 },
-                Mv::S(_) => {
+                Mv::S(k) => {
                     let op = lock(&self.op).clone().unwrap();
                     let w = self.clone();
-                    self.log(tok);
-                    op(Message::Handshake(Arc::new(
-                        (move |m: Message<i64, Never>| {
-                            match m {
-                                Message::Handshake(tb) => {
-                                    *lock(&w.sink_tb) = Some(tb);
-                                    w.log(">G0".into());
-                                },
-                                Message::Data(d) => w.log(format!(">D0d{d}")),
-                                Message::Terminate => w.log(">D0t".into()),
-                                Message::Error(e) => w.log(format!(">D0{}", w.err_id(&e))),
-                                _ => w.log("?pull-to-sink".into()),
-                            }
-                            w.turn();
-                        })
-                        .into(),
-                    )));
-                    self.log("<".into());
+                    self.logs(side, tok);
+                    self.on_behalf(side, || {
+                        op(Message::Handshake(Arc::new(
+                            (move |m: Message<i64, Never>| {
+                                match m {
+                                    Message::Handshake(tb) => {
+                                        lock(&w.sink_tb).insert(k, tb);
+                                        w.logs(side, format!(">G{k}"));
+                                    },
+                                    Message::Data(d) => w.logs(side, format!(">D{k}d{d}")),
+                                    Message::Terminate => w.logs(side, format!(">D{k}t")),
+                                    Message::Error(e) => w.logs(side, format!(">D{k}{}", w.err_id(&e))),
+                                    _ => w.log("?pull-to-sink".into()),
+                                }
+                                w.in_handler(side);
+                            })
+                            .into(),
+                        )))
+                    });
+                    self.logs(side, "<".into());
                 },
-                Mv::U(_, kind, n) => {
-                    let Some(tb) = lock(&self.sink_tb).clone() else {
+                Mv::U(k, kind, n) => {
+                    let Some(tb) = lock(&self.sink_tb).get(&k).cloned() else {
                         self.log(format!("?notb:{tok}"));
                         return;
                     };
-                    self.log(tok);
-                    match kind {
+                    self.logs(side, tok);
+                    self.on_behalf(side, || match kind {
                         'p' => tb(Message::Pull),
                         't' => tb(Message::Terminate),
                         _ => tb(Message::Error(self.err(n))),
-                    }
-                    self.log("<".into());
+                    });
+                    self.logs(side, "<".into());
                 },
-                Mv::G(0) => {
-                    let Some(s) = lock(&self.outer_sink).clone() else {
+                Mv::G(i) if i % 100 == 0 => {
+                    let Some(s) = lock(&self.outer_sink).get(&side).cloned() else {
                         self.log(format!("?nosink:{tok}"));
                         return;
                     };
                     let w = self.clone();
-                    self.log(tok);
-                    s(Message::Handshake(Arc::new(
-                        (move |m: Message<Never, Arc<Source<i64>>>| {
-                            w.up_log(0, &m);
-                            w.turn();
-                        })
-                        .into(),
-                    )));
-                    self.log("<".into());
+                    self.logs(side, tok);
+                    self.on_behalf(side, || {
+                        s(Message::Handshake(Arc::new(
+                            (move |m: Message<Never, Arc<Source<i64>>>| {
+                                w.up_log(i, &m);
+                                w.in_handler(side);
+                            })
+                            .into(),
+                        )))
+                    });
+                    self.logs(side, "<".into());
                 },
                 Mv::G(i) => {
                     let Some(s) = lock(&self.inner_sink).get(&i).cloned() else {
@@ -586,32 +625,35 @@ impl FW {
                         return;
                     };
                     let w = self.clone();
-                    self.log(tok);
-                    s(Message::Handshake(Arc::new(
-                        (move |m: Message<Never, i64>| {
-                            w.up_log(i, &m);
-                            w.turn();
-                        })
-                        .into(),
-                    )));
-                    self.log("<".into());
+                    self.logs(side, tok);
+                    self.on_behalf(side, || {
+                        s(Message::Handshake(Arc::new(
+                            (move |m: Message<Never, i64>| {
+                                w.up_log(i, &m);
+                                w.in_handler(side);
+                            })
+                            .into(),
+                        )))
+                    });
+                    self.logs(side, "<".into());
                 },
-                Mv::D(0, kind, n) => {
-                    let Some(s) = lock(&self.outer_sink).clone() else {
+                Mv::D(i, kind, n) if i % 100 == 0 => {
+                    let Some(s) = lock(&self.outer_sink).get(&side).cloned() else {
                         self.log(format!("?nosink:{tok}"));
                         return;
                     };
-                    self.log(tok);
-                    match kind {
+                    self.logs(side, tok);
+                    self.on_behalf(side, || match kind {
                         'd' => {
-                            let j = self.next_inner.fetch_add(1, Ordering::SeqCst);
                             let w = self.clone();
                             let inner: Arc<Source<i64>> = Arc::new(
                                 (move |m: Message<Never, i64>| {
                                     if let Message::Handshake(sk) = m {
+                                        // inner sources are numbered in the order flatten subscribes to them (as `nextId` in the model)
+                                        let j = w.next_inner[side].fetch_add(1, Ordering::SeqCst) + 100 * side;
                                         lock(&w.inner_sink).insert(j, sk);
-                                        w.log(format!(">S{j}"));
-                                        w.turn();
+                                        w.logs(side, format!(">S{j}"));
+                                        w.in_handler(side);
                                     }
                                 })
                                 .into(),
@@ -620,21 +662,21 @@ impl FW {
                         },
                         't' => s(Message::Terminate),
                         _ => s(Message::Error(self.err(n as u32))),
-                    }
-                    self.log("<".into());
+                    });
+                    self.logs(side, "<".into());
                 },
                 Mv::D(i, kind, n) => {
                     let Some(s) = lock(&self.inner_sink).get(&i).cloned() else {
                         self.log(format!("?nosink:{tok}"));
                         return;
                     };
-                    self.log(tok);
-                    match kind {
+                    self.logs(side, tok);
+                    self.on_behalf(side, || match kind {
                         'd' => s(Message::Data(n)),
                         't' => s(Message::Terminate),
                         _ => s(Message::Error(self.err(n as u32))),
-                    }
-                    self.log("<".into());
+                    });
+                    self.logs(side, "<".into());
                 },
             }
         }
@@ -652,19 +694,24 @@ pub fn run_flatten(script: &str) -> String {
         pos: AtomicUsize::new(0),
         log: Mutex::new(vec![]),
         errs: Mutex::new(vec![]),
-        sink_tb: Mutex::new(None),
-        outer_sink: Mutex::new(None),
+        sink_tb: Mutex::new(HashMap::new()),
+        outer_sink: Mutex::new(HashMap::new()),
         inner_sink: Mutex::new(HashMap::new()),
         op: Mutex::new(None),
-        next_inner: AtomicUsize::new(1),
+        next_inner: [AtomicUsize::new(1), AtomicUsize::new(1)],
+        dual: DUAL.load(Ordering::SeqCst),
+        cur: AtomicUsize::new(0),
+        hstack: Mutex::new(vec![]),
     });
     let w1 = w.clone();
     let outer: Arc<Source<Arc<Source<i64>>>> = Arc::new(
         (move |m: Message<Never, Arc<Source<i64>>>| {
             if let Message::Handshake(s) = m {
-                *lock(&w1.outer_sink) = Some(s);
-                w1.log(">S0".into());
-                w1.turn();
+                // the subscription on whose behalf flatten is running decides which outer subscription this is
+                let side = w1.cur_side();
+                lock(&w1.outer_sink).insert(side, s);
+                w1.logs(side, format!(">S{}", 100 * side));
+                w1.in_handler(side);
             }
         })
         .into(),
@@ -675,8 +722,8 @@ pub fn run_flatten(script: &str) -> String {
     if r.is_err() {
         lock(&w.log).push("!".into());
     }
-    *lock(&w.sink_tb) = None;
-    *lock(&w.outer_sink) = None;
+    lock(&w.sink_tb).clear();
+    lock(&w.outer_sink).clear();
     lock(&w.inner_sink).clear();
     *lock(&w.op) = None;
     let out = lock(&w.log).join(" ");
